@@ -14,16 +14,17 @@ from pmc.engine.tol import rel_residual, exact_equal, mag
 
 PROPERTY = 'C05'
 RULE = ("lattice x history: solver configuration (Diagonal, DenseQR, DenseLU, DenseCholesky incl. forced LDL fall-back, "
-        "DenseLDL(hermitian None/True/False), SparseLU, auto_determine_solver, CG x {identity, DampedJacobi(0.5,1), "
-        "SOR(1,1.5), ILU, GeometricMultigrid V/W, 1 and 2 levels, Jacobi/SOR smoothers}) x matrix family of the class "
-        "the solver documents (diagonal, SPD/HPD, negative definite, symmetric/Hermitian indefinite incl. zero diagonal, "
-        "complex symmetric, general, lower/upper triangular; real and complex) x n in {1,2,3,5,8} with EVERY "
-        "off-diagonal sparsity pattern for n<=3 (n=4 in the thorough tier) x storage dense/csc/csr, plus reference FE "
-        "stiffness/Poisson matrices (pmc.refs.fe) on 2x2,4x2,4x4,2x2x2 grids for CG; per point the history "
-        "update(A1), all solves, update(A2 same class, next value table), all solves, with trans N/T/H x right-hand "
-        "sides (n),(n,1),(n,3),dependent columns,zero column,zero vector, real and complex x (CG) initial guess "
-        "None/0/exact/perturbed. A point is non-trivial if n>=2 and the matrix has an off-diagonal entry (or the solver "
-        "is the diagonal one); distinct by (solver config, family, n, pattern, storage, table)")
+        "DenseLDL(hermitian None/True/False), SparseLU, auto_determine_solver without and with the class flags, CG x "
+        "{identity, DampedJacobi(0.5,1), SOR(1,1.5), ILU, GeometricMultigrid V/W, 1 and 2 levels, Jacobi/SOR smoothers}) "
+        "x matrix family of the class the solver documents (diagonal, SPD/HPD, negative definite, symmetric/Hermitian "
+        "indefinite incl. zero and all-positive diagonal, complex symmetric, general, lower/upper triangular; real and "
+        "complex) x n in {1,2,3,5,8} with EVERY off-diagonal sparsity pattern for n<=3 (n=4 in the thorough tier) x "
+        "storage dense/csc/csr, plus reference FE stiffness/Poisson matrices (pmc.refs.fe) on 2x2,4x2,4x4,2x2x2 grids for "
+        "CG; per point the history update(A1), all solves, update(A2 same class, next value table), all solves, with "
+        "trans N/T/H x right-hand sides (n),(n,1),(n,3) in C and Fortran order, dependent columns, zero column, zero "
+        "vector, real and complex x (CG) initial guess None/0/exact/perturbed. A point is non-trivial if n>=2 and the "
+        "matrix has an off-diagonal entry (or the solver is the diagonal one); distinct by (solver config, family, n, "
+        "pattern, storage, table)")
 ASSUMPTIONS = [
     "numpy dense algebra (matmul, linalg.cond/eigvalsh/solve) as the trusted reference kernel",
     "a solver is only given matrices of the class its docstring names (CG: Hermitian positive definite; Cholesky: "
@@ -36,11 +37,15 @@ ASSUMPTIONS = [
     "complex problem is executed and recorded under observed_only only",
     "'precision of b' is read as: float64/complex128 data gives a float64/complex128 answer; float32 is not tested",
     "direct solvers: per-column residual <= 1e-9*|b_j| + 1e-12 (ALG); CG: <= 2*tol with the tol the object was given "
-    "(zero columns are judged absolutely); CG objects are given maxit = 20 + 2n (exact-arithmetic CG needs <= n steps; measured maximum over the lattice: 1.5n)",
+    "(zero columns are judged absolutely); CG objects are given maxit = 20 + 2n (exact-arithmetic CG needs <= n "
+    "steps; measured over the whole lattice, all tables, tol 1e-10: at most 0.4*maxit iterations are used)",
     "CG with a preconditioner that factorises with SuperLU (SOR, ILU, multigrid coarse level) and a REAL matrix raises "
     "TypeError for a complex right-hand side in every storage -- the same limitation as the documented one for real "
     "sparse matrices: executed, recorded under observed_only, never judged",
     "optional back-ends that are not installed (pardiso, scikit-sparse, cvxopt, umfpack) are out of scope",
+    "once CG has produced a violation on a right-hand side with a zero column, the remaining zero-column points of "
+    "that one history are not run (counted under observed_only); they would spend maxit iterations on NaN and repeat "
+    "the same signature",
     "GeometricMultigrid stores its `cycle` argument but never reads it (V and W run the same code); both are "
     "executed, the property only demands that CG with that preconditioner solves the system",
 ]
@@ -690,10 +695,8 @@ def cg_gen_cases(t, sizes, pattern_max_n, tols, storages, x0_rhs, ctor='update')
 
 def split_x0(base, x0_rhs):
     """all right-hand sides without a guess + the chosen ones with every kind of guess (two descriptors)"""
-    cplx_ok = True
-    rhs = RHS_ALL if cplx_ok else RHS_REAL
-    yield dict(base, rhs=rhs, x0=['none'])
-    yield dict(base, rhs=[r for r in rhs if r in x0_rhs], x0=['zero', 'exact', 'pert', 'zero_real'])
+    yield dict(base, rhs=RHS_ALL, x0=['none'])
+    yield dict(base, rhs=[r for r in RHS_ALL if r in x0_rhs], x0=['zero', 'exact', 'pert', 'zero_real'])
 
 
 def cg_fe_cases(t, grids, fams, precs, tols, storages, x0_rhs, ctor='update'):
